@@ -12,6 +12,11 @@ use std::sync::Arc;
 
 const EPS: f64 = f64::EPSILON;
 
+/// bit-equal, except that the sign of a zero does not matter (-0.0 * 1 + 0 * x is +0.0)
+fn same_value(a: f64, b: f64) -> bool {
+    a.to_bits() == b.to_bits() || (a == 0.0 && b == 0.0)
+}
+
 fn within(got: f64, terms: &[f64]) -> bool {
     let want: f64 = terms.iter().sum();
     let scale: f64 = terms.iter().map(|t| t.abs()).sum();
@@ -150,7 +155,7 @@ pub fn run(ctx: &mut Ctx) {
                     );
                     return;
                 }
-                if vertex && (got.0.to_bits() != per[0][s].0.to_bits() || got.1.to_bits() != per[0][s].1.to_bits()) {
+                if vertex && (!same_value(got.0, per[0][s].0) || !same_value(got.1, per[0][s].1)) {
                     ctx.violation("vertex-duration-not-first-voice", descr(J::obj().set("state", s)));
                     return;
                 }
@@ -178,7 +183,7 @@ pub fn run(ctx: &mut Ctx) {
                             );
                             return;
                         }
-                        if vertex && (mv.0.to_bits() != per[0].parameters[k].0.to_bits() || mv.1.to_bits() != per[0].parameters[k].1.to_bits()) {
+                        if vertex && (!same_value(mv.0, per[0].parameters[k].0) || !same_value(mv.1, per[0].parameters[k].1)) {
                             ctx.violation("vertex-stream-not-first-voice", descr(J::obj().set("stream", si)));
                             return;
                         }
@@ -279,7 +284,7 @@ pub fn run(ctx: &mut Ctx) {
         let b = single.synthesize(labels.clone());
         match (a, b) {
             (Ok(a), Ok(b)) => {
-                let same = a.len() == b.len() && a.iter().zip(&b).all(|(x, y)| x.to_bits() == y.to_bits());
+                let same = a.len() == b.len() && a.iter().zip(&b).all(|(x, y)| same_value(*x, *y));
                 ctx.count("vertex_waveforms_compared", 1.0);
                 if !same {
                     ctx.violation("vertex-waveform-differs-from-first-voice", J::obj().set("set", set.descr.clone()).set("len_multi", a.len()).set("len_single", b.len()));
